@@ -100,7 +100,7 @@ pub open spec fn as_error(m: Option<ErrorMessage>) -> Option<Message> { match m 
 //@mutant disconnect_with_warning_only_sends_the_warning
     peers_to_disconnect.insert( node_id, ( Some(Message::Warning(msg)), "DisconnectPeerWithWarning HandleError", ), );
 //@with
-    enqueue_message_to!(&node_id, Message::Warning(msg))?;
+    let msg = Message::Warning(msg); enqueue_message_to!(&node_id, msg)?;
 //@end
 }
 fn main() {}
